@@ -1,21 +1,35 @@
 """C03 - a transaction runs only when it is fully enabled."""
 
-from . import core, core2
+from . import core, core2, core3
+
+M = core.MANAGER
 
 
 def check(ctx):
     core2.sched_run_definitions(ctx, "C03", want_equiv=False)
-    core2.mgr_scheduler_per_component(ctx, "C03")
     core2.mgr_runnable(ctx, "C03")
     core2.mgr_ready_dependencies(ctx, "C03")
-    core2.mgr_method_run(ctx, "C03")
+    core.cg_priority_passthrough(ctx, "C03")  # schedule_before passes ready_dependent through
     core2.mm_call_recording(ctx, "C03")
     core2.method_call_lowering(ctx, "C03")
-    core2.body_wrappers(ctx, "C03")
-    core2.mgr_provided_mirrors(ctx, "C03")
-    core2.mgr_argument_routing(ctx, "C03")
-    core2.def_method_result(ctx, "C03")
     core2.body_validate_arguments(ctx, "C03")
+    core2.body_wrappers(ctx, "C03")
 
 
-MUTANTS = []
+MUTANTS = [
+    ("eager-run-without-runnable", core.SCHED, "transaction.run.eq(transaction.ready & transaction.runnable & noconflict)", "transaction.run.eq(transaction.ready & noconflict)"),
+    ("rr-request-without-runnable", core.SCHED, "rr.requests[k].eq(transaction.ready & transaction.runnable)", "rr.requests[k].eq(transaction.ready)"),
+    ("runnable-any", M, "m.d.comb += transaction.runnable.eq(Cat(runnable_terms).all())", "m.d.comb += transaction.runnable.eq(Cat(runnable_terms).any())"),
+    ("runnable-only-direct-methods", M, "for body in method_map.ready_for_transaction(transaction)\n", "for body in [transaction]\n"),
+    ("runnable-no-ready-deps", M, "body.ready & Cat(dep.run for dep in ready_dependencies[body]).all()", "body.ready"),
+    ("ready-for-transaction-only-self", M, "return [trans] + self.methods_by_transaction[trans]", "return [trans] + self.methods_by_transaction[trans][:1]"),
+    ("validators-only-nonexclusive", M, "                if method.validate_arguments is not None\n", "                if method.validate_arguments is not None and method.nonexclusive\n"),
+    ("validate-blocks-disabled-calls", core.BODY, "return ~en | Value.cast(method_def_helper(self, self.validate_arguments, arg_rec)).bool()", "return Value.cast(method_def_helper(self, self.validate_arguments, arg_rec)).bool()"),
+    ("validate-wrong-enable", M, "return Cat(method._validate_arguments(call.enable, call.arg) for call in calls).all()", "return Cat(method._validate_arguments(calls[0].enable, call.arg) for call in calls).all()"),
+    ("nesting-not-ready-dependent", core.BODY, "parent.schedule_before(self, ready_dependent=True)", "parent.schedule_before(self)"),
+    ("ready-deps-filed-under-source", M, "ready_dependencies[relation.end].add(body)", "ready_dependencies[body].add(relation.end)"),
+    ("rec-skips-disabled-subtree", M, "                    rec(transaction, method, new_ancestors, new_call_path, new_call_enable)", "                    if len(new_call_path) < 2:\n                        rec(transaction, method, new_ancestors, new_call_path, new_call_enable)"),
+    ("call-not-recorded-when-conditional", core.METHOD, "        if not isinstance(enable_call, Const) or enable_call.value != 1:\n            with m.If(enable_call):\n                return self(m, arg)", "        if not isinstance(enable_call, Const) or enable_call.value != 1:\n            return self.data_out"),
+    ("schedule-before-drops-ready-dependent", core.TBASE, "                ready_dependent=ready_dependent,\n", "                ready_dependent=False,\n"),
+    ("body-ready-top-comb", core.METHOD, "m.d.av_comb += body.ready.eq(ready)", "m.d.av_comb += body.ready.eq(1)"),
+]
